@@ -119,7 +119,7 @@ type stalled struct{ msg string }
 func (e stalled) Error() string { return "INCONCLUSIVE: " + e.msg }
 
 func runLoops(c loopCase) error {
-	if c.Req < 1 || c.Req > 64 || c.Producers < 1 || c.Producers > 8 || c.Consumers < 1 || c.Consumers > 8 || c.PerProd < 1 || c.PerProd > 100000 {
+	if c.Req < 1 || c.Req > 1<<21 || c.Producers < 1 || c.Producers > 8 || c.Consumers < 1 || c.Consumers > 8 || c.PerProd < 1 || c.PerProd > 100000 {
 		return nil
 	}
 	q := ringz.NewSync[int](c.Req)
@@ -246,9 +246,14 @@ func runLoops(c loopCase) error {
 
 func TestRacedLoops(t *testing.T) {
 	st := pb.Stats("syncring_raced_loops")
-	st.SetRule("1-4 producers x 200-3000 values and 1-4 consumers spinning on a SyncRing of requested capacity 1..9 on real goroutines under the race detector, with an observer calling Len; oracle: every value comes out exactly once, per consumer the values of one producer arrive in increasing order, Len in [0,Cap] throughout, ring empty afterwards; every drawn configuration is a case, non-trivial = >= 2 producers and >= 2 consumers")
+	st.SetRule("1-4 producers x 200-3000 values and 1-4 consumers spinning on a SyncRing of requested capacity 1..9 (one case in five: 1000..2^20+1) on real goroutines under the race detector, with an observer calling Len; oracle: every value comes out exactly once, per consumer the values of one producer arrive in increasing order, Len in [0,Cap] throughout, ring empty afterwards; every drawn configuration is a case, non-trivial = >= 2 producers and >= 2 consumers")
 	gen := rapid.Custom(func(t *rapid.T) loopCase {
-		return loopCase{Req: rapid.IntRange(1, 9).Draw(t, "req"), Producers: rapid.IntRange(1, 4).Draw(t, "p"), Consumers: rapid.IntRange(1, 4).Draw(t, "c"),
+		req := rapid.IntRange(1, 9).Draw(t, "req")
+		if rapid.IntRange(0, 4).Draw(t, "large") == 0 {
+			// requested capacities far above the usual ones: the rounding to a power of two and the index mask
+			req = rapid.SampledFrom([]int{1000, 65535, 65536, 65537, 70000, 131073, 131074, 196609, 262145, 1<<20 + 1}).Draw(t, "largeReq")
+		}
+		return loopCase{Req: req, Producers: rapid.IntRange(1, 4).Draw(t, "p"), Consumers: rapid.IntRange(1, 4).Draw(t, "c"),
 			PerProd: rapid.IntRange(200, 3000).Draw(t, "n")}
 	})
 	n := pb.Scaled(40)
@@ -270,6 +275,7 @@ func TestRacedLoops(t *testing.T) {
 		rec := &pb.Rec{}
 		rec.NonTrivialIf(c.Producers >= 2 && c.Consumers >= 2)
 		rec.ClassIf(c.Producers >= 2 && c.Consumers >= 2, "MPMC")
+		rec.ClassIf(c.Req > 65536, "requested capacity above 2^16")
 		st.Case(js, rec)
 	}
 }
